@@ -12,6 +12,70 @@ CLAIMED = {
         "note": "Trusted: Coq kernel + vm_compute; hand-written model (tie checked by sampling, bounded by the generator); "
                 "Python harness; ASCII identifiers only.",
     },
+    "C01": {
+        "design_ref": "DESIGN.md section 5 / C01",
+        "technique": "Coq proof (placement/selection lemmas, induction over the function list) over a Gallina model of the sequential map path + per-run differential correspondence (vm_compute)",
+        "text": "Theorem C01_map_run_denotes: for an arbitrary user-function oracle, every request whose pointwise MapSpec denotation is "
+                "defined is answered by the model of Pipeline.map's sequential path (index loops, input_keys selection, flat-index placement "
+                "_set_output, storage dump at output_key) with exactly the denoted arrays, both returned and stored, for all ranks, masks "
+                "(internal axes at any position), zips, outer products and ':' reductions; never refused. The model is tied to /repo per run: "
+                "random valid requests are run through the real Pipeline.map on all three storages and compared in Coq with the model and "
+                "judged against the denotation (spec_ok).",
+        "note": "Trusted: Coq kernel + vm_compute; hand-written model of _run.py/_shapes.py/_run_info.py (sequential path; storage abstracted to the "
+                "masked array that C07 proves the backends refine); explicit MapSpecs only (auto-generation exercised, not modelled); "
+                "oracle hypothesis body_arity; harness/mapsym.py structural functions.",
+    },
+    "C07": {
+        "design_ref": "DESIGN.md section 5 / C07",
+        "technique": "Coq refinement proof (FileArray and DictArray models refine a masked n-d array, by induction over operation sequences) + per-run differential correspondence",
+        "text": "For every geometry, mask interleaving and operation sequence (dump, getitem with int/negative/slice keys, to_array, mask, "
+                "mask_linear, has_index, get_from_index, persist-reopen) the line-by-line models of FileArray and DictArray produce the outputs of "
+                "the reference masked array (refines_seq), hence agree with each other; key errors exactly for wrong rank / out-of-range ints; "
+                "row-major linear indices. Models tied to the real classes (file_array, dict, shared_memory_dict) on every run.",
+        "note": "Trusted: Coq kernel; hand-written models of _base.py/_file.py/_dict.py; Python slice/range/unravel tables re-checked against CPython/NumPy "
+                "on every run; pickle treated as identity; zarr backends cannot be imported here.",
+    },
+    "C14": {
+        "design_ref": "DESIGN.md section 5 / C14",
+        "technique": "Coq invariant + refinement proofs over state-machine models of the four cache classes (induction over all operation sequences) + exhaustive/random differential correspondence incl. two-client schedule exploration",
+        "text": "For every operation sequence: LRU/Simple/Hybrid/Disk models never raise, keep their representation invariants (size <= max, "
+                "queue = dict domain, ...) and refine abstract policy specs (recency list; scored entries; creation-ordered files with LRU front); "
+                "evicted entry is the policy's victim (Hybrid under irreflexive+transitive '<'). Implementation driven along all sequences over a "
+                "3-4 key alphabet to depth 4-5, random long sequences, shared=True, and all schedules of two small clients with proxy calls as atomic steps.",
+        "note": "Trusted: Coq kernel; hand-written models of cache.py classes; Hybrid arithmetic generic in the theorems, PrimFloat only in the correspondence "
+                "(float primitives); real multi-process timing sampled, lock linearizability explored not proved; disk ctime made strictly increasing by the harness.",
+    },
+    "C15": {
+        "design_ref": "DESIGN.md section 5 / C15",
+        "technique": "Coq proof over a value-universe model of Python ==, <, hash, sorted() and to_hashable (dispatch order mirrored) + pairwise differential correspondence in two interpreters",
+        "text": "key_hashable, eq_implies_key_eq (via canonicity of sorting), key_eq_implies_eq (injectivity; only pandas excluded) and totality are proved "
+                "under explicit guards; each guard is matched by a refuted-theorem witness and a recorded known finding on the real code (incomparable "
+                "set/dict keys, frozenset partial order, masked arrays, pandas index/dtype loss, Counter zero counts, pickle hash-seed dependence). "
+                "Pairs of values incl. look-alikes are run through the real to_hashable in two interpreters with different hash seeds.",
+        "note": "Trusted: Coq kernel; hand-written models (PyVal, PySort for <64 elements, ToHashable); cloudpickle/md5 as injective digest; NaN/inf, "
+                "lists >= 64 elements not modelled; theorems are guarded partial statements, the unguarded ones are refuted (known findings).",
+    },
+    "C17": {
+        "design_ref": "DESIGN.md section 5 / C17",
+        "technique": "Coq proof over a Gallina model of sweep.py (generate/len/product/filtered/MultiSweep/count loop) against a declarative Cartesian-product spec + differential correspondence",
+        "text": "len = length of list(), generate = row-major product of zipped groups with constants (setdefault), derivers and exclusion, "
+                "add/MultiSweep = concatenation, count_sweep loop counts; product = Cartesian product and filtered_sweep = distinct projections "
+                "under stated guards, with refuted-theorem witnesses for the three recorded findings (product loses a zip, empty operand neutral, "
+                "filtered ignores an empty dimension).",
+        "note": "Trusted: Coq kernel; hand-written model of sweep.py; derivers/excludes are structural (table-driven) in the correspondence; "
+                "set_cache_for_sweep, use_pandas, root-argument computation (C02) not modelled.",
+    },
+    "C20": {
+        "design_ref": "DESIGN.md section 5 / C20",
+        "technique": "Coq proof over a hand-written Gallina model of resources.py (exact rational sizes, explicit aliasing state) + per-run differential correspondence (vm_compute)",
+        "text": "Coq theorems for all Resources values: combine_max is an upper bound in cpus/gpus/memory-by-size/time-by-duration and leaves "
+                "operands untouched, with_defaults keeps set fields, no combinator mutates or aliases its operands, from_dict(dict r)=r, "
+                "the constructor accepts exactly the valid combinations and strings (scanners proved equivalent to the regex grammars); "
+                "to_slurm_options mentions every set quantity except the recorded finding gpus=0 (refuted + guarded partial theorem). "
+                "Model tied to /repo per run by differential execution; spec_ok (Coq) judges the implementation's observations.",
+        "note": "Trusted: Coq kernel + vm_compute; hand-written model; harness. Float rounding of _convert_to_gb not modelled (memory strings "
+                "<= 6 significant digits); non-ASCII digits and callable resources out of scope.",
+    },
 }
 
 NOT_YET = "not claimed yet: model/proofs for this property are not built in this revision (see DESIGN.md section 9 build order)"
